@@ -613,14 +613,20 @@ func corpus() []jcase {
 
 func main() {
 	run = hx.Start("C30", "Aurora.C30.Corr",
-		"histories (6..24 ops) of registrations (Handshake with empty signature) and cheques delivered to the real traffic service, and store-only cheque sequences; cheques are valid / replayed / not increasing / negative / mis-addressed / wrongly signed (7 ways) / foreign-issuer / from unregistered peers / odd issuer, signed with real EIP-712 keys; addresses are encoded injectively as small numbers (universe index, others numbered from 100 in order of appearance); non-trivial = at least two cheques accepted; distinct by the full op list")
+		"concurrent deliveries (2-4 goroutines, same/increasing/decreasing/two-issuer/defective cheques) through the real service over a gated state store (the controller grants the store's reads before its writes), followed by sequential replays; and histories (6..24 ops) of registrations (Handshake with empty signature) and cheques delivered to the real traffic service, and store-only cheque sequences; cheques are valid / replayed / not increasing / negative / mis-addressed / wrongly signed (7 ways) / foreign-issuer / from unregistered peers / odd issuer, signed with real EIP-712 keys; addresses are encoded injectively as small numbers (universe index, others numbered from 100 in order of appearance); non-trivial = at least two cheques accepted; distinct by the full op list")
 	initUniverse()
 	if run.Replay != "" {
 		var jc jcase
 		if err := run.ReadReplay(&jc); err != nil {
 			panic(err)
 		}
-		if jc.Kind == "store" {
+		if jc.Kind == "conc" {
+			var cc jconc
+			if err := run.ReadReplay(&cc); err != nil {
+				panic(err)
+			}
+			runConc(cc)
+		} else if jc.Kind == "store" {
 			runStore(jc)
 		} else {
 			runSvc(jc)
@@ -635,7 +641,13 @@ func main() {
 			runSvc(jc)
 		}
 	}
-	nSvc, nStore := run.N(160, 2500), run.N(50, 600)
+	for _, cc := range concCorpus() {
+		runConc(cc)
+	}
+	for i := 0; i < run.N(36, 400); i++ {
+		runConc(genConc(run.R.Fork(uint64(2000000 + i))))
+	}
+	nSvc, nStore := run.N(140, 2500), run.N(40, 600)
 	for i := 0; i < nSvc; i++ {
 		runSvc(genSvc(run.R.Fork(uint64(i)), 6+run.R.Intn(19)))
 	}
